@@ -18,18 +18,19 @@ Check fast_paths_total : forall p op x y, in_i32 x -> in_i32 y -> ~ known_gap op
 Print Assumptions fast_paths_total.
 
 (* What the guards decide: the result is the closed-form spec_val -- an Integer32 exactly when the exact
-   result is representable (sum/difference/product/power in range, division exact, no negative zero), otherwise the float
+   result is representable (sum/difference/product/power in range, division exact, no negative zero where the arm filters it:
+   spec_val = spec_gen fast_div_nz, spec_ops = spec_gen ops_div_nz, the flags computed from the regenerated arms), otherwise the float
    ("slow") computation on the converted operands; never a wrapped integer, in either profile. *)
 Theorem slow_path_taken_otherwise : forall p op x y, in_i32 x -> in_i32 y -> ~ known_gap op x y ->
-  run_fast p op x y = Ok (Some (spec_val op x y)) /\ run_ops p op x y = Ok (spec_val op x y).
+  run_fast p op x y = Ok (Some (spec_val op x y)) /\ run_ops p op x y = Ok (spec_ops op x y).
 Proof. exact slow_path_lemma. Qed.
 Check slow_path_taken_otherwise : forall p op x y, in_i32 x -> in_i32 y -> ~ known_gap op x y ->
-  run_fast p op x y = Ok (Some (spec_val op x y)) /\ run_ops p op x y = Ok (spec_val op x y).
+  run_fast p op x y = Ok (Some (spec_val op x y)) /\ run_ops p op x y = Ok (spec_ops op x y).
 Print Assumptions slow_path_taken_otherwise.
 
-Theorem int_results_in_range : forall op x y z, in_i32 x -> in_i32 y -> spec_val op x y = JInt z -> in_i32 z.
+Theorem int_results_in_range : forall nz op x y z, in_i32 x -> in_i32 y -> spec_gen nz op x y = JInt z -> in_i32 z.
 Proof. exact spec_int_in_range. Qed.
-Check int_results_in_range : forall op x y z, in_i32 x -> in_i32 y -> spec_val op x y = JInt z -> in_i32 z.
+Check int_results_in_range : forall nz op x y z, in_i32 x -> in_i32 y -> spec_gen nz op x y = JInt z -> in_i32 z.
 Print Assumptions int_results_in_range.
 
 (* i32::checked_pow as transliterated from core::num: the exact power when it fits, None otherwise *)
